@@ -302,7 +302,60 @@ def as_slice_identity(m, cfg, f, args, t):
     return Slice(None, nm, slice_len_of(m, st, nm))
 
 
+def _next_fn(m, f, it_val, st):
+    """the `next` of the iterator a `try_for_each` / `for_each` call runs over, as a callable value"""
+    v = it_val
+    if isinstance(v, Ref):
+        v = m.read_path(st, v.key, v.path)
+    if isinstance(v, Adt) and v.adt.split('::')[0] in ('minicbor', 'minicbor_serde', 'minicbor_io'):
+        want = '<%s' % v.adt
+        for inst in m.prog.insts.values():
+            if inst['path'].startswith(want) and inst['path'].endswith(' as std::iter::Iterator>::next'):
+                return FnItem({'rkey': inst['key'], 'rpath': inst['path'], 'path': inst['path'], 'rkind': 'item', 'resolved': True, 'krate': inst['krate'], 'rkrate': inst['krate']})
+        return None
+    # std iterators over symbolic collections: the representative-iteration `next` above
+    return FnItem({'path': 'std::iter::Iterator::next', 'rpath': 'std::iter::Iterator::next', 'resolved': False})
+
+
+def iter_try_for_each(m, cfg, f, args, t):
+    """Iterator::try_for_each(f) / for_each(f) as the loop they are: `while let Some(x) = it.next() { f(x)? }` (for_each: no `?`).
+    Only for closures returning Result<(), E> / ()."""
+    st = cfg.st
+    it, clo = args[0], args[1]
+    nxt = _next_fn(m, f, it, st)
+    if nxt is None or not isinstance(clo, (Clo, FnItem)):
+        return NotImplemented
+    trying = (f.get('rpath') or f.get('path') or '').endswith('try_for_each')
+    it_arg = it if isinstance(it, Ref) else None
+    if it_arg is None:
+        key = ('obj', fresh('iter'))
+        st.mem[key] = it
+        it_arg = Ref(key, (), True)
+    rounds = [0]
+
+    def after_f(mm, c, r):
+        if trying:
+            if isinstance(r, Adt) and norm_adt(r.adt) == RESULT:
+                if r.variant == 1:
+                    return r
+            else:
+                raise Abort('try_for_each over a closure whose result is not a Result (%r)' % (r,))
+        rounds[0] += 1
+        if rounds[0] > 64:
+            raise Abort('try_for_each does not terminate on the abstract stream')
+        return CallThen(nxt, [it_arg], after_next)
+
+    def after_next(mm, c, v):
+        if isinstance(v, Adt) and norm_adt(v.adt) == OPTION:
+            if v.variant == 0:
+                return ok(UNIT) if trying else UNIT
+            return CallThen(clo, [v.fields[0]], after_f)
+        raise Abort('iterator adaptor over an iterator whose next() is not understood (%r)' % (v,))
+    return CallThen(nxt, [it_arg], after_next)
+
+
 PATTERNS = [
+    (re.compile(r'^(std|core)::iter::Iterator::(try_)?for_each$'), iter_try_for_each),
     (re.compile(r"^<(std|alloc)::(vec::Vec<T, A>|string::String) as (std|core)::ops::Deref(Mut)?>::deref(_mut)?$"), as_slice_identity),
     (re.compile(r"^(std|alloc)::vec::Vec::<T, A>::as_(mut_)?slice$"), as_slice_identity),
     (re.compile(r"^(std|alloc)::string::String::as_str$"), as_slice_identity),
@@ -372,6 +425,15 @@ class L2Machine(Machine):
             if s is not None and s != self.root_self:
                 return True
         return False
+
+    def extra_handler(self, names):
+        for n in names:
+            if not n:
+                continue
+            for rx, h in self.patterns:
+                if rx.match(n):
+                    return h
+        return None
 
     def call_fn(self, cfg, fr, f, args, dest, ret_bb, t):
         from .absint import std_name
